@@ -32,23 +32,25 @@ Declared == { "", "text/csv" }
 Keys == { <<97>>, <<98, 92, 92>>, <<99, 92>> }     \* "a", "b\\", "c\" (field names travel in a quoted-string too)
 Vals == { <<120>>, <<121, 32, 38>> }
 
-Item(n, d, l, h, z, c) == [name |-> n, declared |-> d, len |-> l, head |-> h, nul |-> z, chunk |-> c]
+Item(n, d, l, h, z, c) == [name |-> n, declared |-> d, len |-> l, head |-> h, nul |-> z, chunk |-> c, seekable |-> FALSE, skip |-> 0]
 WellFormedItem(it) ==
   /\ it.head \in {"png", "pdf", "gif"} => it.len >= 16
   /\ it.head = "bin" => it.len >= 1
   /\ it.nul # 0 => it.head = "text" /\ it.nul <= it.len
 SniffItems == { it \in { Item(<<102>>, d, l, h, z, c) : d \in Declared, l \in Lens, h \in {"text", "png", "pdf", "bin"},
                                                         z \in {0, 1, 512, 513}, c \in Chunks } : WellFormedItem(it) }
+SeekItems == { [it EXCEPT !.seekable = TRUE, !.skip = k] : it \in { i \in SniffItems : i.chunk = 0 /\ i.len \in {1, 513} }, k \in {0, 5} }
 PlainItems == { Item(n, d, 1500, "text", 0, 0) : n \in Names, d \in Declared }
 
-In0 == [media |-> MULTIPART, method |-> "POST", presetct |-> "", payload |-> "none", fields |-> <<>>, files |-> <<>>, auth |-> FALSE, k |-> 0]
+In0 == [media |-> MULTIPART, method |-> "POST", presetct |-> "", payload |-> "none", fields |-> <<>>, files |-> <<>>, auth |-> FALSE, k |-> 0,
+        fault |-> FALSE, debug |-> FALSE]
 Init == track = "start" /\ in = In0
 
 Ids == [payload |-> "P", files |-> [i \in 1..Len(in.files) |-> [j \in 1..Len(in.files[i].items) |-> <<i, j>>]]]
 
 SniffTrack ==
   /\ track = "start"
-  /\ \E it \in SniffItems, m \in {MULTIPART, URLENCODED, JSON} :
+  /\ \E it \in SniffItems \cup SeekItems, m \in {MULTIPART, URLENCODED, JSON} :
         in' = [in EXCEPT !.media = m, !.files = << [field |-> <<117>>, items |-> <<it>>] >>]
   /\ track' = "sniff"
 
@@ -74,12 +76,12 @@ AddValue ==
 PayloadTrack ==
   /\ track = "start"
   /\ \E p \in {"none", "value", "reader", "readcloser"}, m \in {JSON, TEXT, OCTET}, a \in BOOLEAN, k \in 0..MaxK,
-        me \in {"GET", "OPTIONS", "POST", "DELETE"}, pc \in {"", JSON, TEXT} :
-        in' = [in EXCEPT !.payload = p, !.media = m, !.auth = a, !.k = k, !.method = me, !.presetct = pc]
+        me \in {"GET", "OPTIONS", "POST", "DELETE"}, pc \in {"", JSON, TEXT}, dbg \in BOOLEAN :
+        in' = [in EXCEPT !.payload = p, !.media = m, !.auth = a, !.k = k, !.method = me, !.presetct = pc, !.debug = dbg]
   /\ track' = "payload"
 AuthOnForms ==      \* auth writers on form bodies (buffered urlencoded, streaming multipart)
   /\ track = "structure" /\ ~in.auth
-  /\ \E k \in 0..MaxK : in' = [in EXCEPT !.auth = TRUE, !.k = k]
+  /\ \E k \in 0..MaxK, dbg \in BOOLEAN : in' = [in EXCEPT !.auth = TRUE, !.k = k, !.debug = dbg]
   /\ track' = "structure-auth"
 
 Next == SniffTrack \/ StartStructure \/ AddFileField \/ AddItem \/ AddField \/ AddValue \/ PayloadTrack \/ AuthOnForms
@@ -92,11 +94,14 @@ ObsOf(b) == [err |-> FALSE, ctmedia |-> b.ctmedia, boundary |-> b.boundary,
 
 BodyHolds == BodyOK(in, Ids, ObsOf(CodeBody(in, Ids)))
 
-\* streaming bodies (reader payloads, multipart pipe) and buffered ones, content of two abstract units
+\* streaming bodies (reader payloads, multipart pipe) and buffered ones, content of three abstract units;
+\* the stream may fail once after 0, 1 or 2 units (or never): then the call fails, or everything holds
 AuthHolds ==
-  LET kind == CodeKind(in)
-      a    == CodeAuth(in, kind \in {"raw", "multipart"}, IF kind = "empty" THEN <<>> ELSE <<1, 2>>)
-  IN AuthOK(in, a.shown, a.sent)
+  LET kind == CodeKind(in) IN
+  \A f \in {-1, 0, 1, 2} :
+    LET a == CodeAuth(in, kind \in {"raw", "multipart"}, IF kind = "empty" THEN <<>> ELSE <<1, 2, 3>>, f)
+    IN IF f >= 0 THEN a.err \/ (AuthOK(in, a.shown, a.sent) /\ a.sent = (IF kind = "empty" THEN <<>> ELSE <<1, 2, 3>>))
+       ELSE ~a.err /\ AuthOK(in, a.shown, a.sent) /\ a.sent = (IF kind = "empty" THEN <<>> ELSE <<1, 2, 3>>)
 
 \* non-vacuity witnesses (development): violated when checked
 NeverSniffsText == \A i \in 1..Len(in.files) : \A j \in 1..Len(in.files[i].items) : CodeSniff(in.files[i].items[j]) # TEXTPLAIN
